@@ -41,6 +41,17 @@ fn spell(rng: &mut Rng, seg: &str, variant: u8) -> String {
         0 => seg.to_string(),
         1 => format!("\"{seg}\""),
         2 => format!("'{seg}'"),
+        // long names (beyond any fixed-size prefix a hash or comparison might look at): the same
+        // name every time, sharing a long prefix or a long suffix with the other names
+        4 => format!("{}{seg}", "k".repeat(40)),
+        5 => {
+            let long = format!("{seg}{}", "-tail".repeat(9));
+            if rng.coin() {
+                long
+            } else {
+                format!("'{long}'")
+            }
+        }
         _ => match rng.below(4) {
             0 => format!("\"{seg}\""),
             1 => format!("'{seg}'"),
@@ -156,7 +167,13 @@ impl Check for C09 {
         w
     }
     fn run(&mut self, ctx: &mut Ctx, workload: &str, index: u64, rng: &mut Rng) {
-        let variant = (rng.below(8) as u8).min(3); // 0 bare, 1 basic, 2 literal, 3.. mixed
+        // 0 bare, 1 basic, 2 literal, 3 mixed (most), 4 / 5 long names
+        let variant = match rng.below(10) {
+            v @ 0..=2 => v as u8,
+            8 => 4,
+            9 => 5,
+            _ => 3,
+        };
         let mut text = String::new();
         let nst;
         match workload {
